@@ -81,30 +81,23 @@ theorem ufunc2_cells (fn : GQ → GQ → GQ) (pw : Bool) (n : List Nat) (l r : V
             simp only [hnb] at h
             obtain ⟨_, hmk⟩ := ufuncWrap_ok _ _ _ _ h
             -- `self` is one of the two inputs: its array has rank above the mesh's
-            have hself : Cells n self (if l = .fld self then cl else cr) (if l = .fld self then vl else vr) ∧
-                (mesh_rank : self.mesh.n.length < a.shape.length ∨ self.mesh.n.length < b.shape.length) := by
+            have hself : self.mesh.n = n ∧
+                (self.mesh.n.length < a.shape.length ∨ self.mesh.n.length < b.shape.length) := by
               rcases firstFld_some l r self hff with hl' | hr'
               · subst hl'
                 have hf : Cells n self cl vl := hl
                 rw [ufuncInput_fld self a ka ha]
-                simp only [if_true]
-                exact ⟨hf, Or.inl hf.rank⟩
+                exact ⟨hf.2.1, Or.inl hf.rank⟩
               · subst hr'
                 have hf : Cells n self cr vr := hr
                 rw [ufuncInput_fld self b kb hb]
-                by_cases hls : l = .fld self
-                · subst hls
-                  have hf' : Cells n self cl vl := hl
-                  simp only [if_true]
-                  exact ⟨hf', Or.inr hf.rank⟩
-                · simp only [hls, if_false]
-                  exact ⟨hf, Or.inr hf.rank⟩
-            obtain ⟨hsc, hrank⟩ := hself
+                exact ⟨hf.2.1, Or.inr hf.rank⟩
+            obtain ⟨hsn, hrank⟩ := hself
             obtain ⟨hm, hwf, _, _, _, hvalid, hcell⟩ :=
               npBin_cells fn self.mesh a b res hrank hnb _ _ none _ _ g (by intro v hv; cases hv) hmk
-            refine ⟨⟨hwf, by rw [hm]; exact hsc.2.1, ?_⟩, self, rfl, hm⟩
+            refine ⟨⟨hwf, by rw [hm]; exact hsn, ?_⟩, self, rfl, hm⟩
             intro i hi
-            have hi' : inRange self.mesh.n i = true := by rw [hsc.2.1]; exact hi
+            have hi' : inRange self.mesh.n i = true := by rw [hsn]; exact hi
             refine ⟨?_, by rw [hvalid i hi']; rfl⟩
             show cellOf g.data i g.nvdim = bz fn (cl i) (cr i)
             rw [hcell i hi', ufuncInput_cells n l cl vl hl a ka ha i hi, ufuncInput_cells n r cr vr hr b kb hb i hi]
